@@ -51,6 +51,10 @@ FIRST_LOOK = {  # recorded when the seed was first run, before any rule was touc
  "C07-10": "missed by C07 (C10's R10d: unknown-shape alarm)", "C07-11": "caught", "C07-12": "missed",
  "C11-10": "missed", "C11-11": "caught", "C11-12": "caught",
  "C01-10": "missed by C01, caught by C04", "C01-11": "missed by C01, caught by C07", "C01-12": "missed by C01, caught by C05 (with the wrong reason: R05f did not see through the predicate helper; corrected)",
+ "C17-1": "unknown-shape alarm only (R17b took a helper that wraps QuoteMeta for a raw write; corrected, the seed is now missed)", "C17-2": "missed", "C17-3": "missed",
+ "C31-10": "caught", "C31-11": "caught", "C31-12": "caught",
+ "C15-10": "missed by C15 (C06's R06c raised a false alarm on the sync.Pool idiom; corrected)", "C15-11": "missed", "C15-12": "caught",
+ "C36-10": "caught", "C36-11": "missed", "C36-12": "missed by C36, caught by C35",
  "C10-10": "missed", "C10-11": "missed", "C10-12": "unknown-shape alarm only (a false one: R10e took `Pos{}` in reset() for state; corrected)",
 }
 def key(d):
